@@ -349,6 +349,15 @@ def f3(run, project):
                             seen.add(key)
                             n += 1
                             names = list(dict.fromkeys(x.id for x in ast.walk(c.args[0]) if isinstance(x, ast.Name)))
+                            # digits assembled by an object / function of the package that was not dissolved into the scanner:
+                            # what it hands back is not followed (no verdict on this form)
+                            opaque = [c_ for c_ in ast.walk(c.args[0]) if isinstance(c_, ast.Call) and isinstance(c_.func, ast.Attribute)
+                                      and isinstance(c_.func.value, ast.Call) and isinstance(c_.func.value.func, ast.Name)
+                                      and c_.func.value.func.id[:1].isupper() and project.resolve_name(mod, c_.func.value.func.id)]
+                            if opaque:
+                                raise AnalysisError(f"F3: the operand of `{paths.text(c)[:80]}` is produced by a method of the project class "
+                                                    f"`{opaque[0].func.value.func.id}`, which holds the digits between steps: a scanner whose "
+                                                    "state lives in such an object is not followed - DESIGN section 7")
                             bad = []
                             for v in names:
                                 bound_here = any(k == "bind" and norm(e_.targets[0]) == v for k, e_, _n in p.effects)
